@@ -53,15 +53,17 @@ def seeds_table():
         sigs = []
         for c in det:
             sigs += [s.split(":", 1)[-1] if False else s for s in m["ran"]["checks"][c]["signatures"][:2]]
-        rows.append((name, m.get("property"), what.replace("|", "\\|"), "yes" if m.get("seed_confirmed") else "NO",
-                     ", ".join(det) if det else "**missed**", "; ".join(s[:90] for s in sigs[:2]).replace("|", "\\|")))
+        if m.get("note"):
+            what = (what + " — NOTE: " + m["note"])[:420]
+        rows.append((name, m.get("property"), what.replace("|", "\\|"), "yes" if m.get("seed_confirmed") else "no longer breaks the property",
+                     ", ".join(det) if det else ("n/a" if m.get("note") else "**missed**"), "; ".join(s[:90] for s in sigs[:2]).replace("|", "\\|")))
     out = ["| seed | property | change (first line of the author's notes) | confirmed | detected by (quick tier) | first signatures |", "|---|---|---|---|---|---|"]
     for r in rows:
         out.append("| " + " | ".join(r) + " |")
-    n = len(rows)
-    nd = len([r for r in rows if r[4] != "**missed**"])
+    n = len([r for r in rows if r[3] == "yes"])
+    nd = len([r for r in rows if r[3] == "yes" and r[4] != "**missed**"])
     out.append("")
-    out.append(f"{n} confirmed seeded changes recorded, {nd} detected by the quick tier of the seeded property's check (final re-run with the committed checks).")
+    out.append(f"{len(rows)} seeded changes recorded, {n} of them confirmed on the current tree, {nd} of those detected by the quick tier of the seeded property's check (last full re-run with the committed checks).")
     return "\n".join(out)
 
 
